@@ -35,7 +35,7 @@ m = {
                  'kind_free_text': 'static analysis: rustc_private fact driver (/verif/driver) + python rule engine over MIR/SSA and HIR'}],
     'checks': checks,
     'not_applicable': na,
-    'notes': 'All checks decide structural clauses of the properties from source (no execution of the library). See DESIGN.md. Genuine defects found and repaired are listed in known_findings.json (status fixed: they suppress nothing).',
+    'notes': 'All checks decide structural clauses of the properties from source (no execution of the library). See DESIGN.md. Genuine defects are listed in /verif/known_findings.json: D1-D7 repaired by fix: commits in /repo (status fixed: they suppress nothing); D8 (KeyExpTree::new aborts for key types without an all-zero value) recorded, not repaired (status known: ./check C10 prints its KNOWN-FINDING line and exits 0; matched by exact instance key only).',
 }
 json.dump(m, open('/verif/MANIFEST.json', 'w'), indent=1)
 print('claimed', [c['property_id'] for c in checks])
